@@ -156,6 +156,16 @@ theorem HOpener.shouldOpen_fst (o : HOpener) (t : Int) :
   · exact ⟨rfl, rfl, rfl, Or.inl rfl⟩
   · exact ⟨rfl, rfl, rfl, Or.inr rfl⟩
 
+theorem HOpener.view_spec (o : HOpener) (t : Int) :
+    (o.view t).pct = o.pct ∧ (o.view t).vol = o.vol ∧
+    (o.view t).attempts = (o.attempts.sumAt t).1 ∧
+    ((o.view t).errors = o.errors ∨ (o.view t).errors = (o.errors.sumAt t).1) := by
+  unfold HOpener.view
+  simp only
+  split
+  · exact ⟨rfl, rfl, rfl, Or.inl rfl⟩
+  · exact ⟨rfl, rfl, rfl, Or.inr rfl⟩
+
 theorem HOpener.shouldOpen_snd (o : HOpener) (t : Int) :
     (o.shouldOpen t).2 =
       if (o.attempts.sumAt t).2 = 0 ∨ (o.attempts.sumAt t).2 < o.vol then false
@@ -204,6 +214,13 @@ theorem HInv.step {n : Nat} {w pct0 vol0 : Int} {o : HOpener} {h : List OOp} (hn
     exact ⟨{ o with pct := p, vol := v }, rfl, rfl, rfl, I.att.skip _ rfl, I.err.skip _ rfl⟩
   | cfgC t =>
     exact ⟨o, rfl, I.pct, I.vol, I.att.skip _ rfl, I.err.skip _ rfl⟩
+  | view t =>
+    obtain ⟨h1, h2, h3, h4⟩ := HOpener.view_spec o t
+    refine ⟨o.view t, rfl, by rw [h1]; exact I.pct, by rw [h2]; exact I.vol, ?_, ?_⟩
+    · rw [h3]; exact I.att.sumAt hn t
+    · rcases h4 with h4 | h4
+      · rw [h4]; exact I.err.skip _ rfl
+      · rw [h4]; exact I.err.sumAt hn t
 
 theorem HInv.exec {n : Nat} {w pct0 vol0 : Int} (hn : 0 < n) : ∀ (ops : List OOp) (o : HOpener) (h : List OOp),
     HInv n w pct0 vol0 o h →
@@ -251,6 +268,7 @@ theorem consec_step (thr : Int) (h : List OOp) (op : OOp) :
   | should t => rfl
   | cfgH p v => rfl
   | cfgC t => rfl
+  | view t => rfl
 
 theorem consec_exec (thr : Int) : ∀ (ops : List OOp) (h : List OOp),
     oexec (.consec { count := trailingErrors (sinceTransition h), threshold := consecThreshold thr h }) ops
